@@ -18,7 +18,7 @@
 EXTENDS ChainHistory, Json
 Trace == ndJsonDeserialize("trace.ndjson")
 TrEnv == {"PALOMA_FF_PIGEON_STATUS_UPDATE", "PIGEON_HEALTHCHECK_PORT"}
-TrQueries == {"pick", "assign", "simulate", "relay", "snapshot", "snapbuild", "evidence", "uptime", "chaininfojail", "history"}
+TrQueries == {"pick", "assign", "simulate", "relay", "snapshot", "snapbuild", "evidence", "uptime", "chaininfojail", "history", "prunejail"}
 NoBlocks == {<<>>}
 \* the versions of the version gate: patch / minor / major components with different digit counts, a pre-release
 GateVersions0 == {[v |-> <<5, 1, 6>>, pre |-> ""], [v |-> <<5, 1, 9>>, pre |-> ""], [v |-> <<5, 1, 10>>, pre |-> ""], [v |-> <<5, 1, 20>>, pre |-> ""],
@@ -37,8 +37,8 @@ Fresh == /\ queued' = "idle" /\ gate' = NoGate /\ halted' = FALSE /\ env' = {} /
 TrInit == IsEvent("Init") /\ LET e == Trace[l] IN
   /\ Fresh /\ height' = e.height /\ txlog' = EmptyLog(e.height - Base)
   /\ last' = Rec("Init", <<>>) /\ hres' = "none" /\ hh' = 0
-  /\ whash' = IF whash = "" THEN e.whash ELSE whash
-  /\ Report("C08.WorldAgrees", whash = "" \/ e.whash = whash)
+  /\ whash' = IF whash = "" /\ e.args.world = "std" THEN e.whash ELSE whash
+  /\ Report("C08.WorldAgrees", e.args.world # "std" \/ whash = "" \/ e.whash = whash)
 
 TrBlock == IsEvent("Block") /\ LET e == Trace[l]  txs == TplSeq(e.args.txs) \o e.args.hostile IN
   /\ height' = e.height /\ txlog' = Append(txlog, txs) /\ queued' = StageAfter(queued, txs)
